@@ -125,6 +125,17 @@ type c17SrvCase struct {
 	// elsewhere, which never completes (lost sibling): the first datagram the hook can see is
 	// still this case's datagram, with this case's address
 	Stale bool `json:"stale_fragment_first,omitempty"`
+	// DupFrag/DupAt: one fragment of the datagram is delivered TWICE (datagrams may be duplicated
+	// on the way): a fresh message with the same packet id, fragment id and bytes. DupFrag is the
+	// 1-based index of that fragment (0 = no duplicate); the copy arrives just before the DupAt-th
+	// (0-based) arrival of Order, always after the original; DupAt == number of fragments means
+	// after the datagram completed. The client sent ONE datagram: the hook and the outbound conn
+	// still get exactly its bytes, exactly once.
+	// Added after the independently seeded change C17-8 (a re-sent fragment replaced the stored one
+	// and was counted into the reassembled size again: the first packet grew by len(duplicate) zero
+	// bytes, and a duplicate after completion delivered the packet a second time).
+	DupFrag int `json:"dup_fragment,omitempty"`
+	DupAt   int `json:"dup_at,omitempty"`
 }
 
 func c17Payload(kind string, n int) []byte {
@@ -167,14 +178,17 @@ func c17RunSrvInner(c *c17SrvCase) (clause, detail string, aliased bool) {
 	// the client's datagram as protocol messages (each fragment owns its bytes, as ParseUDPMessage produces them)
 	bounds := append(append([]int{0}, c.Cuts...), len(sent))
 	nf := len(bounds) - 1
-	var frags []*protocol.UDPMessage
-	for i := 0; i < nf; i++ {
+	mkFrag := func(i int) *protocol.UDPMessage {
 		pid := uint16(0)
 		if nf > 1 {
 			pid = 77
 		}
-		frags = append(frags, &protocol.UDPMessage{SessionID: 9, PacketID: pid, FragID: uint8(i), FragCount: uint8(nf), Addr: c.Addr,
-			Data: append(make([]byte, 0, bounds[i+1]-bounds[i]), sent[bounds[i]:bounds[i+1]]...)})
+		return &protocol.UDPMessage{SessionID: 9, PacketID: pid, FragID: uint8(i), FragCount: uint8(nf), Addr: c.Addr,
+			Data: append(make([]byte, 0, bounds[i+1]-bounds[i]), sent[bounds[i]:bounds[i+1]]...)}
+	}
+	var frags []*protocol.UDPMessage
+	for i := 0; i < nf; i++ {
+		frags = append(frags, mkFrag(i))
 	}
 	order := c.Order
 	if len(order) == 0 {
@@ -185,8 +199,44 @@ func c17RunSrvInner(c *c17SrvCase) (clause, detail string, aliased bool) {
 	if c.Stale {
 		m.feed(&protocol.UDPMessage{SessionID: 9, PacketID: 55, FragID: 1, FragCount: 2, Addr: "stale.invalid:9", Data: []byte("lost sibling")})
 	}
-	for _, i := range order {
+	// the duplicated fragment (C17-8): only of a fragmented datagram, only after its original
+	dup := c.DupFrag >= 1 && c.DupFrag <= nf && nf > 1 && c.DupAt <= len(order)
+	if dup {
+		for k, i := range order {
+			if i == c.DupFrag-1 && k >= c.DupAt {
+				dup = false
+			}
+		}
+	}
+	for k, i := range order {
+		if dup && c.DupAt == k {
+			m.feed(mkFrag(c.DupFrag - 1))
+		}
 		m.feed(frags[i])
+	}
+	// lateDup delivers the copy after the datagram completed: nothing more may reach the hook or
+	// the outbound side (after a refusal the copy is a lone fragment of a datagram that never completes)
+	lateDup := func(wantConns, wantWrites int) (string, string) {
+		if !dup || c.DupAt != len(order) {
+			return "", ""
+		}
+		m.feed(mkFrag(c.DupFrag - 1))
+		if len(io.seen) != 1 {
+			return "duplicate-fragment-hook-called-again", fmt.Sprintf("a copy of fragment %d arriving after the datagram completed: Hook was called %d times for one datagram", c.DupFrag-1, len(io.seen))
+		}
+		if len(io.conns) != wantConns {
+			return "duplicate-fragment-dialed", fmt.Sprintf("a copy of fragment %d arriving after the datagram completed: %d outbound conns, %d before it", c.DupFrag-1, len(io.conns), wantConns)
+		}
+		n := 0
+		for _, conn := range io.conns {
+			conn.mu.Lock()
+			n += len(conn.writes)
+			conn.mu.Unlock()
+		}
+		if n != wantWrites {
+			return "duplicate-fragment-forwarded-again", fmt.Sprintf("a copy of fragment %d arriving after the datagram completed: %d writes to the outbound conn for one datagram", c.DupFrag-1, n)
+		}
+		return "", ""
 	}
 	wantAddr := c.Addr
 	if c.Hook == c17HookRewrite {
@@ -208,7 +258,8 @@ func c17RunSrvInner(c *c17SrvCase) (clause, detail string, aliased bool) {
 		if m.Count() != 0 {
 			return "session-kept-after-refusal", "the hook refused the session but it stays in the table", false
 		}
-		return "", "", false
+		clause, detail = lateDup(0, 0)
+		return clause, detail, false
 	}
 	if len(io.conns) != 1 {
 		return "dial-count", fmt.Sprintf("%d outbound conns for one session", len(io.conns)), false
@@ -230,6 +281,9 @@ func c17RunSrvInner(c *c17SrvCase) (clause, detail string, aliased bool) {
 		return "forwarded-to-wrong-addr", fmt.Sprintf("datagram written to %q, hook left %q", ws[0].addr, wantAddr), false
 	}
 	aliased = len(sent) > 0 && ws[0].ptr == io.seenPtr[0]
+	if clause, detail = lateDup(1, 1); clause != "" {
+		return clause, detail, aliased
+	}
 	if c.Second {
 		second := append(c17Payload("ff", 7), sent...)
 		m.feed(&protocol.UDPMessage{SessionID: 9, FragCount: 1, Addr: c.Addr, Data: append([]byte(nil), second...)})
@@ -255,7 +309,9 @@ func c17SrvEnumerate(sh *evidence.Shard) {
 	}
 	payloads := []pl{{"text", 0}, {"text", 1}, {"text", 5}, {"text", 24}, {"zeros", 24}, {"ff", 24}, {"quic-like", 200}, {"quic-like", 1200}, {"quic-like", 1230}, {"quic-like", 4000}}
 	p.Alphabet = map[string]any{"payload": fmt.Sprint(payloads), "fragments": "1, 2 or 3 fragments cut at {1, 2, n/2, n-1}; every arrival order",
-		"hook": []string{"inspect only", "inspect + rewrite host (port kept)", "refuse"}, "addr": []string{"1.2.3.4:443", "orig.example:8443"}, "second_datagram": []bool{false, true}, "session id first seen in a lone fragment of another datagram to another address": []bool{false, true}}
+		"hook": []string{"inspect only", "inspect + rewrite host (port kept)", "refuse"}, "addr": []string{"1.2.3.4:443", "orig.example:8443"}, "second_datagram": []bool{false, true}, "session id first seen in a lone fragment of another datagram to another address": []bool{false, true},
+		// added after the independently seeded change C17-8 (a re-sent fragment was counted into the reassembled size again)
+		"duplicated_fragment": "none, or any one fragment of a fragmented datagram delivered twice (same packet id, fragment id, bytes): the copy at every later position of the arrival order, including after the datagram completed"}
 	var item int64
 	for _, pay := range payloads {
 		n := pay.n
@@ -266,27 +322,42 @@ func c17SrvEnumerate(sh *evidence.Shard) {
 			}
 			nf := len(cuts) + 1
 			enum.Permutations(nf, func(perm []int) bool {
+				// {fragment delivered twice (1-based, 0 = none), position of the copy}: every fragment, every
+				// position after its original up to "after completion" (C17-8)
+				dups := [][2]int{{0, 0}}
+				if nf > 1 {
+					for k, i := range perm {
+						for at := k + 1; at <= nf; at++ {
+							dups = append(dups, [2]int{i + 1, at})
+						}
+					}
+				}
 				for _, hook := range []int{c17HookInspect, c17HookRewrite, c17HookRefuse} {
 					for _, addr := range []string{"1.2.3.4:443", "orig.example:8443"} {
 						for si := 0; si < 4; si++ {
 							second, stale := si&1 == 1, si&2 == 2
-							item++
-							if !env.Mine(item) {
-								continue
-							}
-							c := &c17SrvCase{Payload: pay.kind, Len: n, Cuts: append([]int(nil), cuts...), Order: append([]int(nil), perm...), Hook: hook, Addr: addr, Second: second, Stale: stale}
-							p.Evaluations++
-							clause, detail, aliased := c17RunSrv(c)
-							p.Class(pay.kind, n, len(cuts), fmt.Sprint(perm), hook, addr, second, stale, clause)
-							if aliased {
-								p.Count("hook_slice_is_the_slice_written_next", 1)
-							}
-							if len(p.Samples) < 2 && p.Evaluations%41 == 7 {
-								p.Sample(c)
-							}
-							if clause != "" {
-								// one signature per clause x hook behaviour x number of fragments; the replay file holds one complete case
-								sh.Violate(p.Name, fmt.Sprintf("server-udp/%s/hook=%d,fragments=%d", clause, hook, nf), detail, c)
+							for _, dp := range dups {
+								item++
+								if !env.Mine(item) {
+									continue
+								}
+								c := &c17SrvCase{Payload: pay.kind, Len: n, Cuts: append([]int(nil), cuts...), Order: append([]int(nil), perm...), Hook: hook, Addr: addr, Second: second, Stale: stale, DupFrag: dp[0], DupAt: dp[1]}
+								p.Evaluations++
+								clause, detail, aliased := c17RunSrv(c)
+								p.Class(pay.kind, n, len(cuts), fmt.Sprint(perm), hook, addr, second, stale, dp, clause)
+								if aliased {
+									p.Count("hook_slice_is_the_slice_written_next", 1)
+								}
+								if dp[0] > 0 {
+									p.Count("cases_with_a_fragment_delivered_twice", 1)
+								}
+								if len(p.Samples) < 2 && p.Evaluations%41 == 7 {
+									p.Sample(c)
+								}
+								if clause != "" {
+									// one signature per clause x hook behaviour x number of fragments; the replay file holds one complete case
+									sh.Violate(p.Name, fmt.Sprintf("server-udp/%s/hook=%d,fragments=%d", clause, hook, nf), detail, c)
+								}
 							}
 						}
 					}
